@@ -76,12 +76,14 @@ def block_copolymer_case(rng):
     if len(set(order)) == len(order) or all(a == b for a, b in zip(order, order[1:])):
         order = [names[0], names[-1], names[0]] + order[3:]
     spell = lambda seq: ''.join('[#%s]' % m for m in seq)
-    lvl1 = ['#S=[#ME][>]', '#E=[<][#OH]'] + ['#%s=[<]%s[>]' % (n, spell(blocks[n])) for n in names]
-    lvl2 = ['#ME=C[>]', '#OH=[<]O'] + ['#%s=%s' % (m, MONOMERS[m]) for m in monos]
+    caps = True     # without end caps the first block has both descriptors open and the greedy pairing may turn it round:
+                    # layered and flattened strings then legitimately differ (seen on the unchanged tree), outside the quantifier
+    lvl1 = (['#S=[#ME][>]', '#E=[<][#OH]'] if caps else []) + ['#%s=[<]%s[>]' % (n, spell(blocks[n])) for n in names]
+    lvl2 = (['#ME=C[>]', '#OH=[<]O'] if caps else []) + ['#%s=%s' % (m, MONOMERS[m]) for m in monos]
     rng.shuffle(lvl1)
     rng.shuffle(lvl2)
-    multi = '{[#S]' + spell(order) + '[#E]}.{' + ','.join(lvl1) + '}.{' + ','.join(lvl2) + '}'
-    flat = '{[#ME]' + ''.join(spell(blocks[n]) for n in order) + '[#OH]}.{' + ','.join(lvl2) + '}'
+    multi = '{' + ('[#S]' if caps else '') + spell(order) + ('[#E]' if caps else '') + '}.{' + ','.join(lvl1) + '}.{' + ','.join(lvl2) + '}'
+    flat = '{' + ('[#ME]' if caps else '') + ''.join(spell(blocks[n]) for n in order) + ('[#OH]' if caps else '') + '}.{' + ','.join(lvl2) + '}'
     return dict(kind='ambig_layered', multi_string=multi, two_level=flat, coarse_last=False, legacy=True, nlevels=2,
                 features=['block_copolymer_three_levels', 'repeated_block_names_not_adjacent', 'blocks_%d' % len(order)])
 
